@@ -260,10 +260,12 @@ def lock_realtcp(v: bytes, extra: bytes, n_extra: int, u: int) -> bool:
     assume(1 <= u <= 247)
     now = {"t": 1000}
     events = []
-    holder = {}
+    sections = []
+    holder = {"txn": 0}
 
     def note(name):
         events.append((name, tuple(bool(owned(l)) for l in holder["locks"])))
+        sections.append((holder["txn"], tuple(m.sections for m in holder["mons"])))
 
     def clock():
         now["t"] += 1
@@ -306,6 +308,7 @@ def lock_realtcp(v: bytes, extra: bytes, n_extra: int, u: int) -> bool:
     holder["locks"] = find_locks(cl, cl.transaction, cl.framer)
     if not holder["locks"]:
         return False
+    holder["mons"] = monitor_locks(holder["locks"], cl, cl.transaction, cl.framer)
     cl.socket = Sock()
     CS.time.time, CS.select.select = clock, fake_select
     CS.socket.create_connection = lambda *a, **k: Sock()
@@ -315,6 +318,7 @@ def lock_realtcp(v: bytes, extra: bytes, n_extra: int, u: int) -> bool:
         for txn in range(2):
             req = F.ReadHoldingRegistersRequest(txn, 1)
             req.unit_id = u
+            holder["txn"] = txn
             try:
                 cl.execute(req)
             except Exception:
@@ -330,6 +334,15 @@ def lock_realtcp(v: bytes, extra: bytes, n_extra: int, u: int) -> bool:
     for name, flags in events:
         if sum(1 for f in flags if f) != 1:
             explain("%s with owned locks %r (events: %r)", name, flags, [e[0] for e in events])
+            return False
+    # one call = one critical section of the guarding lock
+    first = {}
+    for (name, flags), (txn, secs) in zip(events, sections):
+        sec = secs[flags.index(True)]
+        if txn not in first:
+            first[txn] = sec
+        elif sec != first[txn]:
+            explain("call %d: %s happens in critical section %d, the call's first socket operation was in section %d", txn, name, sec, first[txn])
             return False
     return True
 
